@@ -83,6 +83,8 @@ Atom(x, afterRegex, design) ==
        [] x.f = "pos" -> Signed("1", Ref(VName(x.i)))
        [] x.f = "par" -> Wrap(inner, x.d)
        [] x.f = "npar" -> Signed("-1", Wrap(inner, x.d))
+       [] x.f = "fpar" -> Call("f", <<Wrap(inner, x.d)>>)
+       [] x.f = "fpar2" -> Call("f", <<Ref(VName(x.i)), Wrap(inner, x.d)>>)
 
 RECURSIVE DesignFrom(_, _, _)
 DesignFrom(items, j, acc) ==
@@ -123,6 +125,8 @@ OperandToks(x, afterRegex) ==
        [] x.f = "pos" -> <<P("+"), IdT(VName(x.i))>>
        [] x.f = "par" -> par
        [] x.f = "npar" -> <<P("-"), [par[1] EXCEPT !.g = "T"]>> \o SubSeq(par, 2, Len(par))
+       [] x.f = "fpar" -> <<Id("f"), PT("(")>> \o par \o <<PT(")")>>
+       [] x.f = "fpar2" -> <<Id("f"), PT("("), IdT(VName(x.i)), PT(",")>> \o par \o <<PT(")")>>
 
 RECURSIVE ItemToks(_, _)
 ItemToks(items, j) ==
